@@ -91,8 +91,8 @@ def judge(ctx, srcs, limits, label, compare_spec=True):
 def run(ctx):
     st = core.prepare(ctx, MODULES)
     ctx.assumptions += [
-        "programs inside the fragment of the partial theorems; the zones of the open findings V11 (throw across frames), V28 "
-        "(null-typed call results in value position) and V29 (failing global initialisers) are not generated",
+        "programs inside the fragment of the partial theorems; the zone of the open finding V28 (null-typed call results in "
+        "value position) is not generated",
         "'never deadlocks' is shown for the single-core VM model and the Wait protocol model (C10/C16/C17), not for the Go scheduler",
     ]
     if not st["harness"] or not st["dump"] or not st["model"]:
